@@ -1385,9 +1385,12 @@ class SVG:
         # Simplify things that simplify in isolation
         self.apply_style_attributes(inplace=True)
         self.resolve_nested_svgs(inplace=True)
+        # instantiate use before any shape is parsed: writing parsed shapes back omits
+        # attributes equal to what their context provides (e.g. an explicit
+        # fill="black"), which is only right while the element stays where it is
+        self.resolve_use(inplace=True)
         self.shapes_to_paths(inplace=True)
         self.expand_shorthand(inplace=True)
-        self.resolve_use(inplace=True)
 
         # Simplify things that do not simplify in isolation
         self.simplify(inplace=True)
